@@ -96,6 +96,11 @@ FAMILIES = {
     "component_chain": lambda n: _prog(["x = " + "%".join("c%d(i)" % i for i in range(n))]),
     "format_groups": lambda n: _prog(["10 format(" + "2(" * n + "i2" + ")" * n + ")"]),
     "nested_derived_type_params": lambda n: _prog(["type(t(" * 1 + ", ".join("k%d = %d" % (i, i) for i in range(n)) + ")) :: x"]),
+    "nested_keyword_arg_refs": lambda n: _prog(["x = " + "f(k = " * n + "a" + ")" * n]),
+    "nested_structure_constructors": lambda n: _prog(["x = " + "t(1, c = " * n + "a" + ")" * n]),
+    "nested_component_procedure_refs": lambda n: _prog(["x = " + "obj%get(key = " * n + "a" + ")" * n]),
+    "nested_substrings": lambda n: _prog(["c = " + "s(1)(" * n + "1" + ":2)" * n]),
+    "nested_intrinsic_refs": lambda n: _prog(["x = " + "max(1, " * n + "a" + ")" * n]),
     "io_implied_do_items": lambda n: _prog(["write(6, *) " + "(" * n + "a(i1)" + "".join(", b(i%d), i%d = 1, 2)" % (i, i) for i in range(n))]),
     "io_implied_do_items_first": lambda n: _prog(["read(5, *) " + "(b(i), " * n + "a(i1)" + "".join(", i%d = 1, 2)" % i for i in range(n))]),
     "ac_implied_do_nest": lambda n: _prog(["x = [" + "(" * n + "a(i1)" + "".join(", b, i%d = 1, 2)" % i for i in range(n)) + "]"]),
@@ -120,7 +125,11 @@ INNER = ["x = 1", "call sub(a, b)", "x = f(a) + (b * c)", "if (a) x = 1", "print
 # every wrapper yields a primary (it is parenthesised itself), so any composition is standard-conforming
 EXPR_WRAPS = ["(-(%s))", "(-%s)", "((%s))", "(%s + b)", "(a * %s)", "(.inv. %s)", "(.not. %s)", "[%s]", "(/ %s /)",
               "(%s ** 2)", "(s // %s)", "[(%s, k = 1, 2)]", "(/ (%s, b, k = 1, 2) /)", "[(b, %s, k = 1, 2, 1)]", "(%s .and. l)", "(a == %s)", "(+%s - 1)", "(-a * %s)", "(1.0 * (%s))",
-              "(-(-%s))" if False else "(- %s + 1)"]
+              "(-(-%s))" if False else "(- %s + 1)",
+              # reference-shaped wrappers that are linear on the pinned tree (keyword arguments, intrinsic names,
+              # component procedures, substrings); plain 'f(%s)' / 'arr(i, %s)' are the recorded exponential finding
+              "f(k = %s)", "t(1, c = %s)", "a%%b(%s)", "obj%%get(key = %s)", "s(1)(%s:2)", "max(1, %s)", "sin(%s)",
+              "real(%s, kind = 8)", "c(%s)%%d"]
 
 # io-implied-do levels (R917) with further items before/after the nested list, with and without a stride
 IO_WRAPS = ["(%s, i%(i)d = 1, 2)", "(%s, b(i%(i)d), i%(i)d = 1, 2)", "(b(i%(i)d), %s, i%(i)d = 1, 2)",
